@@ -7,6 +7,7 @@ pub mod doc;
 pub mod dynval;
 pub mod engine;
 pub mod evgen;
+pub mod fuzz;
 pub mod gen;
 pub mod props;
 pub mod rec;
